@@ -582,8 +582,8 @@ TRUSTED = [
     "correspondence harness harness/props/c18.py (generators, observers, in-Coq comparison ok_* of C18/Model.v)",
     "model choices: node/element/value ids are Z; dicts are total functions with default 0; to_dict/from_dict exercised by snapshots",
     "translator harness/translate/py2coq.py (fail-closed Python-ast -> Gallina, subset in its docstring) + the declared field/parameter types in py2coq_targets.py: "
-    "Gen/ClocksGen.v is regenerated from logical_clocks.py, g_counter.py, lww_register.py on every run; __init__ methods, happened_before/merge of VectorClock, "
-    "PNCounter and ORSet are not translated (model + correspondence only); `other` never aliases `self`; Python ints are Z",
+    "Gen/ClocksGen.v is regenerated from logical_clocks.py, g_counter.py, lww_register.py on every run; __init__ methods, VectorClock.merge/is_concurrent "
+    "and ORSet are not translated (model + correspondence only); the iteration order of the key set in VectorClock.happened_before is a parameter of the translation and the tie holds for every order; `other` never aliases `self`; Python ints are Z",
 ]
 
 
